@@ -396,6 +396,11 @@ def run(ctx):
         if not (mname6.startswith("flow.record.adapter") or mname6 in ("flow.record.stream", "flow.record.base")):
             continue
         for fn6 in [n for n in ast.walk(mod6.tree) if isinstance(n, (ast.FunctionDef, ast.AsyncFunctionDef))]:
+            # the read path: methods of the writer classes work on a file they opened for writing themselves - a target that cannot seek
+            # makes them raise, which is a refusal and not a source that can no longer be read
+            owner6 = getattr(fn6, "_parent", None)
+            if isinstance(owner6, ast.ClassDef) and any(norm(b).split(".")[-1] == "AbstractWriter" for b in owner6.bases):
+                continue
             seeks = [c for c in calls_in(fn6) if isinstance(c.func, ast.Attribute) and c.func.attr == "seek"]
             if not seeks:
                 continue
